@@ -138,9 +138,13 @@ def fill_module(rng, mod, earlier):
         if rng.random() < 0.6:
             # chains and cycles between classes: K0().nxt() is a K1, K1().nxt() is a K0 ...
             methods.append(['nxt', [], rng.choice(all_ctors) + '()'])
+        if bases and rng.random() < 0.6:
+            # the usual way to reach the base class
+            methods.append(['up', [['zsup', 'super()']], 'super().common()'])
         # every class also has an attribute and a method under a name shared by all classes, so that "which
         # alternative answers" is observable when a name may be an instance of several classes
         cattrs.append('shared')
+        cattrs.append('Shared')             # differs from `shared` only in case
         methods.append(['common', []])
         items.append(['class', k, bases, cattrs, methods])
         classes_here.append(k)
@@ -213,7 +217,7 @@ def render(mod):
         elif k == 'class':
             out.append('class %s(%s):' % (it[1], ', '.join(it[2])) if it[2] else 'class %s(object):' % it[1])
             for a in it[3]:
-                out.append('    %s = %r' % (a, a if a != 'shared' else 'shared by ' + it[1]))
+                out.append('    %s = %r' % (a, a if a.lower() != 'shared' else 'shared by ' + it[1]))
             for meth in it[4]:
                 mname, sattrs = meth[0], meth[1]
                 out.append('    def %s(self):' % mname)
